@@ -17,8 +17,9 @@
       most `63 |dx| + 1207 |dy| <= 161290` (1.23 px);
   both below 196608. What this does NOT contain is the rounding of the angle to whole degrees
   (`deg_nearest`: up to half a degree, 0.56 px at radius 64) and the accuracy of the table itself
-  against the real sine (EG.Lemmas.SineTable): relative to the EXACT rays the fixed_point build needs
-  about 0.09 + 0.56 px; the oracle of the C18 check measures 0.55 px on half-degree angles at d = 128.
+  against the real sine: relative to the EXACT lines the fixed_point build needs about 0.09 + 0.56 px
+  (proved with 1.5 px in EG.Lemmas.FixedTrigExact over `Real.sin`; the oracle of the C18 check measures
+  0.55 px on half-degree angles at d = 128).
 -/
 import EG.Lemmas.FixedTrigNormals
 import EG.Lemmas.SectorAngular
